@@ -114,6 +114,9 @@ class Harness(cm.BaseB):
                 for v in (0.1, 0.25, 1, 7.5, 10, 25, 50, 50.5, 100, 400, 950, 1200, 0.3, 4.8, 2.4):
                     for md in (1, 2, 3, 6, 10, 12):
                         yield {"kind": "rd", "v": v, "m": m, "md": md}
+                        if md in (3, 12) and float(v).is_integer() and v <= 127:
+                            # the same volume as a numpy scalar of a small integer dtype (multi_disp * volume must not wrap)
+                            yield {"kind": "rd", "v": v, "m": m, "md": md, "vdtype": "uint8" if md == 3 else "int8"}
                         if md in (3, 12):
                             yield {"kind": "rd", "v": v, "m": m, "md": md, "auto_split": False, "cls": "EvoWorklist"}
                             yield {"kind": "rd", "v": v, "m": m, "md": md, "auto_split": False, "cls": "FluentWorklist"}
@@ -230,8 +233,14 @@ class Harness(cm.BaseB):
         v, m, md = case["v"], case["m"], case["md"]
         wl = getattr(rt, case.get("cls", "BaseWorklist"))(max_volume=m, auto_split=case.get("auto_split", True))
         V = []
+        if case.get("vdtype"):
+            import numpy as np
+
+            vcall = np.dtype(case["vdtype"]).type(v)
+        else:
+            vcall = v
         try:
-            wl.reagent_distribution("S", 1, 8, "D", 1, 12, volume=v, multi_disp=md)
+            wl.reagent_distribution("S", 1, 8, "D", 1, 12, volume=vcall, multi_disp=md)
         except Exception as e:
             name = type(e).__name__
             if not (Fraction(v) > Fraction(m) and name == "InvalidOperationError"):
@@ -245,7 +254,7 @@ class Harness(cm.BaseB):
         first = wl[-1]
         for rep in range(2):
             try:
-                wl.reagent_distribution("S", 1, 8, "D", 1, 12, volume=v, multi_disp=md)
+                wl.reagent_distribution("S", 1, 8, "D", 1, 12, volume=vcall, multi_disp=md)
             except Exception as e:
                 V.append(("C06/distribution-refused", f"repetition {rep + 2} of reagent_distribution(volume={v}, multi_disp={md}) with max_volume={m} raised {type(e).__name__}"))
                 break
